@@ -85,6 +85,7 @@ class Truth:
         self.must = collections.defaultdict(set)
         self.opt = collections.defaultdict(set)
         self.inflight = collections.Counter()
+        self.converting = set()  # released by the scheduler, not yet turned into a task message by the farm
         self.queued = []  # released, not handed: (jobid, target, runid)
         self.handed = {}  # unit -> worker conn id  (handed, unanswered)
         self.epoch = 0  # bumped at every (re)load
@@ -133,6 +134,7 @@ class Truth:
         self.must.clear()
         self.opt.clear()
         self.inflight.clear()
+        self.converting.clear()
         self.queued.clear()
         self.handed.clear()
         self.runid_of.clear()
@@ -494,6 +496,18 @@ class PipeWorld:
         chronicle.append = append
         self.sim.after_step.append(self.after_step)
         self.active_at_step_start = False
+        import dawgie.db
+
+        real_next = _orig(dawgie.db, 'next')
+
+        def db_next():
+            if w.cfg['faults'] and w.ch.flip('fault.db_next', 1, 12):
+                w.sim.count('fault.db_next_raises')
+                w.op('fault: dawgie.db.next() raises (database error while drawing a run id)')
+                raise RuntimeError('sim: database error while drawing a run id')
+            return real_next()
+
+        dawgie.db.next = db_next
 
     def nodes(self):
         import dawgie.pl.schedule as schedule
@@ -678,14 +692,24 @@ class PipeWorld:
                     if not (self.blocked(alg, t) or G.inflight[(alg, t)]):
                         expect.append((alg, t))
         jobs = self.real['njb']()
-        released = {(j.tag, t) for j in jobs for t in j.get('do')}
+        released = {(j.tag, t) for j in jobs for t in j.get('do')} - G.converting
         if released:
             self.probes['batch_nonempty'] += 1
+        # the scheduler just moved these units from pending to executing: this is the release the properties
+        # speak of; the farm turns them into task messages right away, or at a later tick when that step faults
+        for j in jobs:
+            for t in sorted(j.get('do')):
+                if (j.tag, t) in released:
+                    self.on_sched_release(j.tag, t)
         for alg, t in expect:
             if (alg, t) not in released and t not in before.get(alg, ((), (), ()))[2]:
+                import dawgie.pl.farm as farm
+
+                anc = {a: (before.get(a), sorted(G.must[a]), {k: v for k, v in G.inflight.items() if k[0] == a}) for a in sorted(self.ref.anc[alg])}
                 self.violate('C04', 'runnable_not_released', f'{self.ref.kind[alg]}',
                              f'{alg}[{t}] is pending, all upstream idle, not released by this dispatch; '
-                             f'code todo/doing/do before={before.get(alg)}')
+                             f'code todo/doing/do before={before.get(alg)}; upstream (code state, owed, in flight): {anc}; '
+                             f'being dispatched: {[j.tag for j in farm._jobs]}')
         return jobs
 
     def blocked(self, alg, t):
@@ -699,11 +723,8 @@ class PipeWorld:
                     return True
         return False
 
-    def on_release(self, job, runid, target):
+    def on_sched_release(self, alg, t):
         G, ref = self.G, self.ref
-        alg, t = job.tag, (target if target else ALL)
-        self.op(f'release {alg}[{t}] run={runid}')
-        G.released_total += 1
         if alg not in ref.kind:
             self.violate('C09', 'unknown_node_released', alg, 'released a node that is not a declared algorithm')
             return
@@ -734,11 +755,26 @@ class PipeWorld:
             if bad:
                 self.violate('C01', 'released_before_upstream', 'all_targets' if t == ALL else 'target',
                              f'{alg}[{t}] released while {bad}')
-        # C11 run id
-        self.check_runid(alg, t, runid)
         G.must[alg].discard(t)
         G.opt[alg].discard(t)
         G.inflight[(alg, t)] += 1
+        G.converting.add((alg, t))
+
+    def on_release(self, job, runid, target):
+        """the farm turns a released unit into a task message (farm._put)"""
+        G, ref = self.G, self.ref
+        alg, t = job.tag, (target if target else ALL)
+        self.op(f'release {alg}[{t}] run={runid}')
+        G.released_total += 1
+        if alg not in ref.kind:
+            return
+        if (alg, t) not in G.converting:
+            self.violate('C03', 'two_in_flight', 'task_message_without_release',
+                         f'a task message for {alg}[{t}] is queued in the farm although the scheduler did not release it (again)')
+            G.inflight[(alg, t)] += 1
+        G.converting.discard((alg, t))
+        # C11 run id
+        self.check_runid(alg, t, runid)
         G.queued.append((alg, t, runid))
         G.unit_epoch[(alg, t, runid)] = G.epoch
 
@@ -1008,6 +1044,13 @@ class PipeWorld:
         cl = sorted((m.jobid, m.target if m.target else ALL, m.runid) for m in farm._cluster)
         if cl != sorted(G.queued):
             self.violate('C03', 'queue_conservation', 'cluster', f'farm queue {cl} != released-unhanded {sorted(G.queued)}')
+        # C03 (ii'): a unit the scheduler marked as executing is in the farm (being converted, queued, or with a
+        # worker) - it is never lost between the scheduler and the farm
+        inconv = {j.tag for j in farm._jobs}
+        for tag, t in sorted(G.converting):
+            if tag not in inconv:
+                self.violate('C03', 'released_unit_lost', 'not_in_farm',
+                             f'{tag}[{t}] was released by the scheduler but is neither waiting to be dispatched, queued in the farm nor with a worker')
         # C03 (iv): crew view of busy == handed and unanswered
         busy = sorted(b.split(' duration')[0] for b in farm.crew()['busy'])
         want = sorted(f'{u[0]}[{u[1]}]' for u in G.handed)
